@@ -88,7 +88,7 @@ add("C03", TV,
 
 STEP_NOTE = K_NOTE + "; pre-states are built directly from private fields (cfg(kani) child modules of the two parser_types.rs); tables are the constant blocks copied from the parser source the freshly built parol generates for the committed corpus grammars; whole parse runs are outside the claim (a^n b^n, N <= 2, did not finish in 45 min / 9 GB), so the claim is per mechanism"
 add("C02", "model_checking",
-    "Bounded model checking (Kani/CBMC) of the LL mechanisms the property rests on, one step at a time from directly built states, on generated tables: push_production (marker + stored right-hand side pushed, one node opened, one production entry) and process_item_stack (semantic action called exactly once per marker - never in recovery mode - with exactly one child per right-hand-side symbol, in grammar order, taken from the top of the tree stack; node closed unless trimmed), for every production of 3 (quick) / 5 (thorough) corpus grammars and all option values; plus ParseTreeStack::split_off / pop_n kernels for all stacks <= 6. Partial: derivation ORDER over a whole parse is not claimed.",
+    "Bounded model checking (Kani/CBMC) of the LL mechanisms the property rests on, one step at a time from directly built states, on generated tables: push_production (marker + stored right-hand side pushed, one node opened, one production entry) and process_item_stack (semantic action called exactly once per marker - never in recovery mode - with exactly one child per right-hand-side symbol, in grammar order, taken from the top of the tree stack; node closed unless trimmed; all productions of a table are completed one after the other on ONE parser object, so state carried from one completed production to the next is covered), for every production of 3 (quick) / 5 (thorough) corpus grammars and all option values; plus ParseTreeStack::split_off / pop_n kernels for all stacks <= 6. Partial: derivation ORDER over a whole parse is not claimed.",
     STEP_NOTE, "SAT-based bounded model checking of compiled Rust (Kani), one-step harnesses over private parser state", "DESIGN.md §0.5, §4.0")
 add("C04", TV,
     "Two legs on the LALR(1) corpus (repository, committed and generated grammars). Soundness: for every grammar for which parol REPORTS resolved conflicts the generated PARSE_TABLE, unrolled as an LR automaton over symbolic tokens (z3, bit-vectors), accepts no token string up to N that is not a sentence of the grammar as written. Reporting (partial): for every grammar accepted WITHOUT a reported conflict z3 decides that the grammar handed to table construction has no sentence up to N with two different parse trees - an ambiguous grammar is not LALR(1), so such a witness means a conflict was resolved silently. Non-LALR(1) grammars that are unambiguous are not detected.",
